@@ -26,10 +26,13 @@ import (
 	"fmt"
 	"io"
 	"os"
+	"reflect"
 	"runtime"
+	"sort"
 	"strconv"
 	"strings"
 	"sync"
+	"sync/atomic"
 	"time"
 	"unsafe"
 
@@ -325,6 +328,7 @@ func (l *link) write(p []byte) (int, error) {
 	}
 	l.data = append(l.data, cp...)
 	l.writes = append(l.writes, len(p))
+	progress.Add(uint64(len(p)) + 1)
 	if len(p) > 0 {
 		l.wbufs = append(l.wbufs, uintptr(unsafe.Pointer(&p[0])))
 	}
@@ -361,6 +365,7 @@ func (l *link) read(p []byte) (int, error) {
 	l.rpos += n
 	l.nread++
 	l.nbytesR += uint64(n)
+	progress.Add(uint64(n))
 	// same mixing as Mpc.Conn.mix64
 	h := (l.rlog ^ uint64(len(p))) * 0x100000001b3
 	l.rlog = (h ^ uint64(n)) * 0x100000001b3
@@ -390,6 +395,7 @@ func (e *endpoint) Close() error {
 // ---------------------------------------------------------------- running ops on the real Conn
 
 func sendOp(c *p2p.Conn, o *op) error {
+	defer progress.Add(1)
 	switch o.kind {
 	case 'f':
 		return c.Flush()
@@ -418,6 +424,7 @@ func sendOp(c *p2p.Conn, o *op) error {
 }
 
 func recvKind(c *p2p.Conn, k byte) (val, error) {
+	defer progress.Add(1)
 	v := val{kind: k}
 	var err error
 	switch k {
@@ -498,7 +505,8 @@ type direction struct {
 	name   string
 	ops    []op
 	kinds  []byte
-	plan   string // all, prefix, extra, reinterpret, lie
+	plan   string // all, prefix, extra, reinterpret, lie, eofmid
+	expect []val  // eofmid: the values that must be received before the error
 	frag   fragSpec
 	slow   int
 	sender *p2p.Conn
@@ -673,6 +681,17 @@ func (d *direction) finish(o *hxlib.Out, idx int, mode string) (string, string) 
 
 	// oracle: received = sent (plans whose receive kinds match the sends)
 	switch d.plan {
+	case "eofmid":
+		if d.recvErr != io.EOF || len(d.got) != len(d.expect) {
+			o.Fail("c11-eof-mid-value", detail(map[string]any{"err": errName(d.recvErr), "received": len(d.got),
+				"expected": len(d.expect), "what": "a stream that ends inside a value must give the complete values, then io.EOF"}))
+		}
+		for i := 0; i < len(d.got) && i < len(d.expect); i++ {
+			if !d.got[i].equal(&d.expect[i]) {
+				o.Fail("c11-value-mismatch", detail(map[string]any{"index": i, "sent": clip(d.expect[i].show()), "got": clip(d.got[i].show())}))
+				break
+			}
+		}
 	case "all", "prefix", "extra":
 		n := len(d.kinds)
 		if n > len(vs) {
@@ -1102,18 +1121,36 @@ func genDirection(r *hxlib.Rng, name string, tier string, big bool) *direction {
 
 // ---------------------------------------------------------------- modes
 
+// progress counts bytes moved through the harness transports and completed
+// typed operations; the watchdog declares a hang only when it has not
+// changed for stallLimit (a loaded machine makes cases slow, not stalled).
+var progress atomic.Uint64
+
+const stallLimit = 45 * time.Second
+
 func runWithWatchdog(o *hxlib.Out, idx int, what string, f func()) bool {
 	done := make(chan struct{})
 	go func() {
 		f()
 		close(done)
 	}()
-	select {
-	case <-done:
-		return true
-	case <-time.After(30 * time.Second):
-		o.Fail("c11-hang", map[string]any{"case": idx, "what": what, "rerun": rerun(idx)})
-		return false
+	last := progress.Load()
+	lastChange := time.Now()
+	tick := time.NewTicker(500 * time.Millisecond)
+	defer tick.Stop()
+	for {
+		select {
+		case <-done:
+			return true
+		case <-tick.C:
+			if cur := progress.Load(); cur != last {
+				last, lastChange = cur, time.Now()
+			} else if time.Since(lastChange) > stallLimit {
+				o.Fail("c11-hang", map[string]any{"case": idx, "what": what, "rerun": rerun(idx),
+					"no_progress_for_s": int(time.Since(lastChange).Seconds())})
+				return false
+			}
+		}
 	}
 }
 
@@ -1198,7 +1235,7 @@ func sampleValue(k byte, i int) val {
 // buffer) delta bytes before its end, followed by one value of every kind,
 // so that every typed send/receive is exercised with the value ending
 // before, exactly at, and across the boundary.
-func sysCases(o *hxlib.Out, tier string, only int) {
+func sysCases(o *hxlib.Out, tier string, only int) (int, bool) {
 	idx := 0
 	deltas := []int{0, 1, 2, 3, 4, 5, 8, 15, 16, 17, 20}
 	bounds := []int{W, RBUF}
@@ -1241,13 +1278,102 @@ func sysCases(o *hxlib.Out, tier string, only int) {
 					}
 				}
 				if !runFrag(o, idx, ab, ba) {
-					return
+					return idx, false
 				}
 				o.Count("cases_sys")
 				idx++
 			}
 		}
 	}
+	return idx, true
+}
+
+// eofCases: the stream ends in the middle of a value.  For every kind of
+// value and every interesting cut of its encoding (inside a fixed-width value,
+// inside the length prefix, right after it, inside the body, one byte before
+// the end, across the 64 KiB / 1 MiB buffers) the sender sends some complete
+// values, then only the cut encoding, and closes.  The receiver must return
+// the complete values, then io.EOF for the cut one - never a partial value.
+func eofCases(o *hxlib.Out, tier string, only int, idx int) bool {
+	type target struct {
+		v    val
+		cuts []int
+	}
+	rng := func(n int) []int {
+		l := make([]int, n)
+		for i := range l {
+			l[i] = i
+		}
+		return l
+	}
+	mkd := func(k byte, n int, seed uint64) val { return val{kind: k, seed: seed, data: pattern(seed, n)} }
+	targets := []target{
+		{val{kind: 'b', n: 0x7f}, []int{0}},
+		{val{kind: 'h', n: 0xbeef}, rng(2)},
+		{val{kind: 'w', n: 0xdeadbeef}, rng(4)},
+		{val{kind: 'l', label: ot.Label{D0: 0x0102030405060708, D1: 0x090a0b0c0d0e0f10}}, rng(16)},
+		{mkd('d', 5, 77), rng(9)},
+		{mkd('s', 5, 78), rng(9)},
+		{mkd('d', 1, 79), rng(5)},
+		{mkd('d', 70000, 80), []int{3, 4, 5, 65535, 65536, 65537, 70003}},
+		{mkd('s', 70000, 81), []int{4, 65540, 70003}},
+		{mkd('d', 1048577+70000, 82), []int{4, 1048575, 1048576, 1048577, 1048580, 1048581, 1118580}},
+		{val{kind: 'z', sizes: []int{1, 2, 3}}, rng(16)},
+		{val{kind: 'z', sizes: patternSizes(5, 1000), zseed: 5}, []int{3, 4, 7, 2006, 4003}},
+	}
+	if tier == "thorough" {
+		targets = append(targets,
+			target{mkd('d', 3*1048576, 83), []int{4, 1048579, 1048580, 2097156, 3145731}},
+			target{val{kind: 'z', sizes: patternSizes(6, 20000), zseed: 6}, []int{4, 65535, 65536, 65540, 80003}})
+	}
+	frags := []fragSpec{{kind: 'a'}, {kind: 'o'}, {kind: 'c', cyc: []int{3, 65536}}, {kind: 'c', cyc: []int{1048576, 1, 1, 2}},
+		{kind: 'r', seed: 11, max: 70000}}
+	for ti, t := range targets {
+		enc := t.v.refEncode(nil)
+		for ci, cut := range t.cuts {
+			if only >= 0 && idx != only {
+				idx++
+				continue
+			}
+			ab := &direction{name: "A->B", plan: "eofmid", frag: frags[(ti+ci)%len(frags)], slow: idx % 3}
+			if ab.frag.kind == 'o' && cut > 400000 {
+				ab.frag = frags[2]
+			}
+			// complete values first (kinds rotate), with a flush somewhere
+			npre := (ti + ci) % 4
+			for j := 0; j < npre; j++ {
+				ab.ops = append(ab.ops, op{kind: 'v', v: sampleValue("bhwdslz"[(ti+ci+j)%7], idx+j)})
+				if j == 1 {
+					ab.ops = append(ab.ops, op{kind: 'f'})
+				}
+			}
+			for _, v := range ab.vals() {
+				ab.kinds = append(ab.kinds, v.kind)
+				ab.expect = append(ab.expect, *v)
+			}
+			// the cut encoding
+			switch {
+			case cut <= 64:
+				for _, b := range enc[:cut] {
+					ab.ops = append(ab.ops, op{kind: 'v', v: val{kind: 'b', n: int(b)}})
+				}
+			default:
+				// length prefix, then cut-4 body bytes (a data value of cut-8
+				// bytes occupies 4+(cut-8) bytes)
+				ab.ops = append(ab.ops, op{kind: 'v', v: val{kind: 'w', n: int(binary.BigEndian.Uint32(enc[:4]))}})
+				ab.ops = append(ab.ops, op{kind: 'v', v: mkd('d', cut-8, uint64(1000+idx))})
+			}
+			ab.kinds = append(ab.kinds, t.v.kind, 'b', 'w')
+			ba := &direction{name: "B->A", plan: "all", frag: frags[(ti+ci+1)%len(frags)]}
+			if !runFrag(o, idx, ab, ba) {
+				return false
+			}
+			o.Count("cases_eof")
+			o.Count("eof_mid_" + string(t.v.kind))
+			idx++
+		}
+	}
+	return true
 }
 
 // pipeCase: the real p2p.Pipe.  Each side sends `rounds` batches; after every
@@ -1381,10 +1507,34 @@ func main() {
 	switch os.Args[1] {
 	case "conn":
 		os.Exit(c11(os.Args[2:]))
+	case "fault":
+		os.Exit(faultMode(os.Args[2:]))
 	case "sys":
 		cf, o := hxlib.ParseCommon("c11", os.Args[2:], nil)
 		rerunBase = fmt.Sprintf("hx-c11 sys -tier %s", cf.Tier)
-		sysCases(o, cf.Tier, cf.Only)
+		// structural facts, taken from the compiled package (reflection and
+		// a fresh Conn), not from source text
+		{
+			probe := p2p.NewConn(&endpoint{in: newLink(fragSpec{kind: 'a'}, 0), out: newLink(fragSpec{kind: 'a'}, 0)})
+			var methods []string
+			t := reflect.TypeOf(probe)
+			for i := 0; i < t.NumMethod(); i++ {
+				name := t.Method(i).Name
+				if strings.HasPrefix(name, "Send") || strings.HasPrefix(name, "Receive") {
+					methods = append(methods, name)
+				}
+			}
+			sort.Strings(methods)
+			o.Meta["facts"] = map[string]any{
+				"write_buf_len":     len(probe.WriteBuf),
+				"read_buf_len":      len(probe.ReadBuf),
+				"send_recv_methods": methods,
+			}
+			probe.Close()
+		}
+		if next, ok := sysCases(o, cf.Tier, cf.Only); ok {
+			eofCases(o, cf.Tier, cf.Only, next)
+		}
 		o.Close()
 		os.Exit(0)
 	default:
